@@ -17,6 +17,18 @@
 (*   DevStopOverwrites : stop() sets 'cancel' unconditionally        (D16) *)
 (*   DevLateOverwrites : _ctrl_cancel_pilots / _check_lifetime assign the  *)
 (*                       cause although one is already recorded            *)
+(*                                                                         *)
+(* finalize is not one step: before it maps the cause to the final state,  *)
+(* writes killme.signal and publishes the state, it runs NFin steps which  *)
+(* touch the environment (stage_output: tar of the pilot's output_staging  *)
+(* list; the resource usage report; the tails of agent_0.out/err/log).     *)
+(* Which of them fail is the environment's choice (FinBegin(F): tar exits  *)
+(* non-zero because a listed file or directory does not exist, a helper    *)
+(* raises).  Commands still arrive while these steps run: the cause is     *)
+(* read by FinPublish.  Intended: a failing step is logged, finalize goes  *)
+(* on, exactly one final state is published whatever F is.                 *)
+(*   DevFinAbort : a failing step leaves finalize by an exception (the     *)
+(*                 work loop logs it): no signal file, no final state      *)
 (***************************************************************************)
 EXTENDS AgentLifeOps, TLC
 
@@ -24,17 +36,25 @@ CONSTANTS Runtime,        \* requested run time in minutes, 0 == unlimited
           MaxNow,         \* clock bound (minutes)
           Me, Others,     \* this pilot's id, other pilot ids
           MaxEvents,      \* bound on commands before finalize
-          DevStopOverwrites, DevLateOverwrites
+          NFin,           \* number of steps of finalize before the publication
+          DevStopOverwrites, DevLateOverwrites, DevFinAbort
 
 VARIABLES now, cause, term, lcReg, lateLC, first, nev, last,
-          fin, signal, advanced, booted, bstate
+          fin, signal, advanced, booted, bstate,
+          fph,            \* "idle" | "steps" (publication pending) | "done" | "aborted"
+          ffail,          \* the steps of finalize which failed
+          npub,           \* number of final states published
+          first0          \* ghost: the first decisive event when finalize was entered ("open": not yet)
 
-vars == <<now, cause, term, lcReg, lateLC, first, nev, last, fin, signal, advanced, booted, bstate>>
+vars == <<now, cause, term, lcReg, lateLC, first, nev, last, fin, signal, advanced, booted, bstate,
+          fph, ffail, npub, first0>>
+finv == <<fph, ffail, npub, first0>>
 
 Init ==
   /\ now = 0 /\ cause = "none" /\ term = FALSE /\ lcReg = TRUE /\ lateLC = 0
   /\ first = "none" /\ nev = 0 /\ last = "init"
   /\ fin = FALSE /\ signal = "" /\ advanced = "none" /\ booted = FALSE /\ bstate = "none"
+  /\ fph = "idle" /\ ffail = {} /\ npub = 0 /\ first0 = "open"
 
 Set(c, new, dev) == IF dev \/ c = "none" THEN new ELSE c
 \* Agent_0.stop() on a cause c
@@ -43,7 +63,7 @@ Stopped(c) == Set(c, "cancel", DevStopOverwrites)
 Tick ==
   /\ ~fin /\ ~booted /\ now < MaxNow
   /\ now' = now + 1 /\ last' = "tick"
-  /\ UNCHANGED <<cause, term, lcReg, lateLC, first, nev, fin, signal, advanced, booted, bstate>>
+  /\ UNCHANGED <<cause, term, lcReg, lateLC, first, nev, fin, signal, advanced, booted, bstate, finv>>
 
 \* the idler thread calls _check_lifetime; after stop() at most one call which
 \* was already waiting for the callback lock
@@ -55,7 +75,7 @@ LifetimeCheck ==
           /\ cause' = Stopped(Set(cause, "timeout", DevLateOverwrites))
           /\ term' = TRUE /\ lcReg' = FALSE /\ last' = "lifetime_expired"
      ELSE /\ last' = "lifetime_ok" /\ UNCHANGED <<first, cause, term, lcReg>>
-  /\ UNCHANGED <<now, fin, signal, advanced, booted, bstate>>
+  /\ UNCHANGED <<now, fin, signal, advanced, booted, bstate, finv>>
 
 CancelCmd(uids) ==
   /\ uids # {}
@@ -66,7 +86,7 @@ CancelCmd(uids) ==
           /\ cause' = Stopped(Set(cause, "cancel", DevLateOverwrites))
           /\ term' = TRUE /\ last' = "cancel_me"
      ELSE /\ last' = "cancel_other" /\ UNCHANGED <<first, cause, term>>
-  /\ UNCHANGED <<now, lcReg, lateLC, fin, signal, advanced, booted, bstate>>
+  /\ UNCHANGED <<now, lcReg, lateLC, fin, signal, advanced, booted, bstate, finv>>
 
 \* 'terminate' on the control channel (session close of the client, or the
 \* agent's own message after a cancel): Component._control_cb -> stop()
@@ -75,39 +95,56 @@ TerminateCmd ==
   /\ nev' = nev + 1
   /\ first' = First(first, "terminate") /\ cause' = Stopped(cause) /\ term' = TRUE
   /\ last' = "terminate"
-  /\ UNCHANGED <<now, lcReg, lateLC, fin, signal, advanced, booted, bstate>>
+  /\ UNCHANGED <<now, lcReg, lateLC, fin, signal, advanced, booted, bstate, finv>>
 
 Stop ==
   /\ ~fin /\ ~booted /\ nev < MaxEvents
   /\ nev' = nev + 1
   /\ first' = First(first, "stop") /\ cause' = Stopped(cause) /\ term' = TRUE
   /\ last' = "stop"
-  /\ UNCHANGED <<now, lcReg, lateLC, fin, signal, advanced, booted, bstate>>
+  /\ UNCHANGED <<now, lcReg, lateLC, fin, signal, advanced, booted, bstate, finv>>
 
-\* the work loop ended (stopped, or for any other reason): write the signal
-\* file, publish the final state
-Finalize ==
-  /\ ~fin /\ ~booted
-  /\ fin' = TRUE /\ signal' = StateOf(cause) /\ advanced' = StateOf(cause)
+\* the work loop ended (stopped, or for any other reason): finalize starts and
+\* runs its steps; F are the steps which fail.  fin is "finalize is over".
+FinBegin(F) ==
+  /\ ~fin /\ ~booted /\ fph = "idle"
+  /\ ffail' = F /\ last' = "fin_begin" /\ first0' = first
+  /\ IF DevFinAbort /\ F # {}
+     THEN fph' = "aborted" /\ fin' = TRUE
+     ELSE fph' = "steps"   /\ fin' = fin
+  /\ UNCHANGED <<now, cause, term, lcReg, lateLC, first, nev, signal, advanced, booted, bstate, npub>>
+
+\* map the cause as it is now, write the signal file, publish the final state
+FinPublish ==
+  /\ ~fin /\ ~booted /\ fph = "steps"
+  /\ fin' = TRUE /\ fph' = "done" /\ npub' = npub + 1
+  /\ signal' = StateOf(cause) /\ advanced' = StateOf(cause)
   /\ last' = "finalize"
-  /\ UNCHANGED <<now, cause, term, lcReg, lateLC, first, nev, booted, bstate>>
+  /\ UNCHANGED <<now, cause, term, lcReg, lateLC, first, nev, booted, bstate, ffail, first0>>
 
 \* bootstrapper after the agent process is gone
 Boot ==
   /\ ~booted
   /\ booted' = TRUE /\ bstate' = BootState(signal) /\ last' = "boot"
-  /\ UNCHANGED <<now, cause, term, lcReg, lateLC, first, nev, fin, signal, advanced>>
+  /\ UNCHANGED <<now, cause, term, lcReg, lateLC, first, nev, fin, signal, advanced, finv>>
 
-Next == \/ Tick \/ LifetimeCheck \/ TerminateCmd \/ Stop \/ Finalize \/ Boot
+Next == \/ Tick \/ LifetimeCheck \/ TerminateCmd \/ Stop \/ FinPublish \/ Boot
         \/ \E uids \in SUBSET ({Me} \cup Others) : CancelCmd(uids)
+        \/ \E F \in SUBSET (1 .. NFin) : FinBegin(F)
 Spec == Init /\ [][Next]_vars
 
 (* ---- properties ----------------------------------------------------------- *)
 TypeOK == /\ cause \in Causes /\ first \in Reasons /\ now \in 0 .. MaxNow
           /\ advanced \in {"none", "DONE", "FAILED", "CANCELED"}
+          /\ fph \in {"idle", "steps", "done", "aborted"} /\ ffail \subseteq 1 .. NFin /\ npub \in 0 .. 2
 
-\* C14.RightReason
-InvRightReason == fin => advanced \in Allowed(first)
+\* C14.RightReason.  A decisive event which arrives while finalize already runs its steps
+\* may or may not be taken into account (the code reads the cause when it publishes).
+Right == Allowed(first) \cup (IF first0 = "open" THEN {} ELSE Allowed(first0))
+InvRightReason == (fin /\ npub > 0) => advanced \in Right
+\* C14.OneFinalState: whichever steps of finalize failed, once it is over exactly
+\* one final state was published (and none before)
+InvOneFinalState == npub = (IF fin THEN 1 ELSE 0)
 \* the signal file, the published state and the bootstrapper agree
 InvSignal      == fin => signal = advanced
 InvBoot        == booted => bstate = (IF fin THEN advanced ELSE "FAILED")
